@@ -217,7 +217,7 @@ pub fn check_cac(c: &CacCase) -> Verdict {
         return Verdict::pass();
     }
     let w = World::new(&c.vals);
-    let dir = match tempfile::tempdir() {
+    let dir = match crate::scratch_dir() {
         Ok(d) => d,
         Err(_) => return Verdict::pass().class("VACUOUS"),
     };
@@ -406,7 +406,7 @@ fn check_ml_inner(c: &MlCase) -> Verdict {
         return Verdict::pass();
     }
     let w = World::new(&c.vals);
-    let Ok(dir) = tempfile::tempdir() else { return Verdict::pass().class("VACUOUS") };
+    let Ok(dir) = crate::scratch_dir() else { return Verdict::pass().class("VACUOUS") };
     let rt = rt();
     let layers = if c.three { 3 } else { 2 };
     let mut cfg = MultiLayerCacheConfig::new().with_promotion_strategy(PromotionStrategy::Manual);
